@@ -14,7 +14,8 @@ EXPLANATION = (
 DECIDED = ["R03a the database transaction is one storage transaction (PAIR + order)",
            "R03b closed classification of public mutating entry points (call graph)",
            "R03c success pairing of all per-structure storage brackets",
-           "R05e (shared) a renamed database keeps a working write-ahead log"]
+           "R05e (shared) a renamed database keeps a working write-ahead log",
+           "R01a-g the write-ahead log discipline (all rules of C01 re-evaluated)"]
 UNDECIDED = ["equality of the reopened state with the before/after model state (needs execution)"]
 
 SD_WRITE = ("agdb::storage::StorageData::write", "agdb::storage::StorageData::resize")
@@ -96,4 +97,9 @@ def run(ctx):
     # a renamed database must keep a working write-ahead log, otherwise later transactions are not atomic
     from rules import C05
     C05.rename_rule(ctx)
+    # an interrupted transaction is undone by the log replay: newest-first, every record at its place (R01c, shared with C01)
+    from rules import C01
+    # ... and by everything else the write-ahead log promises (logged before written, closed set of file writers, encoding
+    # of truncation records, recovery on open / drop): all rules of C01 are preconditions of this property
+    C01.run(ctx)
     return 0
